@@ -71,5 +71,20 @@ pub fn extend_be_bytes(data: &mut Vec<u8>, slice: &[Felt])
     ensures final(data)@ == old(data)@ + concat_be32(fv(slice@)),
 { unimplemented!() }
 
+
+// ---- v.drain(0..1).collect::<Vec<_>>() -----------------------------------------------------------------------
+/// removes and returns the first element (std: `drain(0..1)` PANICS when the vector is empty, hence the precondition)
+#[verifier::external_body]
+pub fn drain_first<T>(v: &mut Vec<T>) -> (r: Vec<T>)
+    requires old(v)@.len() >= 1,
+    ensures r@ == seq![old(v)@[0]], final(v)@ == old(v)@.skip(1),
+{ unimplemented!() }
+
+// ---- v.extend(w.iter()) for Vec<Felt> -----------------------------------------------------------------------
+#[verifier::external_body]
+pub fn extend_from_iter(v: &mut Vec<Felt>, w: &Vec<Felt>)
+    ensures final(v)@ == old(v)@ + w@,
+{ unimplemented!() }
+
 } // verus!
 } // mod hoist
